@@ -485,6 +485,9 @@ func (ts *TermStore) Bin(op Op, a, b *Term) *Term {
 			if op == OpLShr && a.op == OpZExt && b.k >= uint64(a.a.w) {
 				return ts.Const(w, 0)
 			}
+			if op == OpAShr && a.op == OpZExt && a.a.w < a.w {
+				return ts.Bin(OpLShr, a, b)
+			}
 			if op == OpLShr {
 				// lshr(x,k) = zext(extract(x, w-1, k))
 				return ts.ZExt(ts.Extract(a, w-1, uint8(b.k)), w)
@@ -590,6 +593,12 @@ func (ts *TermStore) Concat(hi, lo *Term) *Term {
 	}
 	if hi.isConst() && lo.isConst() {
 		return ts.Const(uint8(w), hi.k<<lo.w|lo.k)
+	}
+	if hi.op == OpExtract && lo.op == OpExtract && hi.a == lo.a && (hi.k&0xff) == (lo.k>>8)+1 {
+		return ts.Extract(hi.a, uint8(hi.k>>8), uint8(lo.k&0xff))
+	}
+	if hi.isConst() && hi.k == 0 {
+		return ts.ZExt(lo, uint8(w))
 	}
 	return ts.mk(OpConcat, uint8(w), hi, lo, nil, 0, "")
 }
